@@ -462,9 +462,11 @@ Section Eval.
       | SegDesc s' => e_segment s' (flat_map_data descend d)
       | SegSel sel => e_selector sel d
       | SegSels l =>
-          match e_selectors l d with
-          | Some r => r
-          | None => DRef (root_ptr root)     (* .unwrap_or(step.root.into()) *)
+          (* selectors.map(|s| s.process(step.clone())).reduce(State::reduce)
+             .unwrap_or(step.root.into()) *)
+          match l with
+          | SNil => DRef (root_ptr root)
+          | SCons s0 l' => e_selectors l' d (e_selector s0 d)
           end
       end
     with e_selector (s : selector) (d : data) : data :=
@@ -475,16 +477,11 @@ Section Eval.
       | SelSlice a b c => flat_map_data (fun p => process_slice p a b c) d
       | SelFilter f => fselect (e_felem f) d
       end
-    (* selectors.map(|s| s.process(step.clone())).reduce(State::reduce) *)
-    with e_selectors (l : selectors) (d : data) : option data :=
+    (* the fold of [reduce] over the remaining selectors, [acc] being the reduction so far *)
+    with e_selectors (l : selectors) (d acc : data) : data :=
       match l with
-      | SNil => None
-      | SCons s l' =>
-          Some ((fix go (acc : data) (l : selectors) : data :=
-                   match l with
-                   | SNil => acc
-                   | SCons s l' => go (reduce acc (e_selector s d)) l'
-                   end) (e_selector s d) l')
+      | SNil => acc
+      | SCons s l' => e_selectors l' d (reduce acc (e_selector s d))
       end
     with e_segments (l : segments) (d : data) : data :=
       match l with
